@@ -58,7 +58,7 @@ vars == <<att, conns, bconn, msgs, launched, ret, envDone, cancelled>>
 
 Idle == [st |-> "idle", lsn |-> "none", acceptor |-> "none", acc |-> 0,
          reply |-> "none", seen |-> FALSE, consumed |-> FALSE, why |-> "none", stage |-> "reply",
-         nread |-> 0, viaBroker |-> FALSE]
+         nread |-> 0, viaBroker |-> FALSE, hello |-> "none"]
 NoRet == [kind |-> "none", c |-> 0, why |-> "none", fails |-> {}]
 
 Init ==
@@ -225,7 +225,7 @@ ProxyRead(b) ==
                                           ![b].why = IF m = "replyFail" THEN "brokerFail" ELSE "protocol"]
                     /\ bconn' = [bconn EXCEPT ![b] = "closed"]
           ELSE IF m = "legit" \/ ("AcceptAnyHello" \in Bug /\ m \in WellFormed)
-               THEN /\ att' = [att EXCEPT ![b].st = "ok", ![b].nread = @ + 1]
+               THEN /\ att' = [att EXCEPT ![b].st = "ok", ![b].nread = @ + 1, ![b].hello = m]
                     /\ UNCHANGED bconn
                ELSE /\ att' = [att EXCEPT ![b].st = "err", ![b].why = "protocol", ![b].nread = @ + 1]
                     /\ bconn' = [bconn EXCEPT ![b] = IF "NoCloseMismatch" \in Bug THEN "orphan" ELSE "closed"]
@@ -257,13 +257,21 @@ DialConsume(b) ==
           /\ UNCHANGED launched
   /\ UNCHANGED <<msgs, envDone, cancelled>>
 
+\* known wrong design (self-test of AtMostOneReturned): a second successful attempt is
+\* handed over as well
+SecondWinner(b) ==
+  /\ "SecondWinnerAlsoReturned" \in Bug /\ ~Running /\ ret.kind = "rev"
+  /\ att[b].st = "dead" /\ att[b].acceptor = "matched" /\ conns[att[b].acc].st = "orphan"
+  /\ conns' = [conns EXCEPT ![att[b].acc].st = "returned"]
+  /\ UNCHANGED <<att, bconn, msgs, launched, ret, envDone, cancelled>>
+
 DialCancelled ==
   /\ Running /\ cancelled
   /\ Finish([kind |-> "error", c |-> 0, why |-> "cancelled", fails |-> {}], 0, 0)
   /\ UNCHANGED <<msgs, launched, envDone, cancelled>>
 
 Internal ==
-  \/ \E b \in Brokers : AcceptStep(b) \/ AttemptSelect(b) \/ ProxyRead(b) \/ DialConsume(b)
+  \/ \E b \in Brokers : AcceptStep(b) \/ AttemptSelect(b) \/ ProxyRead(b) \/ DialConsume(b) \/ SecondWinner(b)
   \/ DialCancelled
 
 Env ==
@@ -287,9 +295,9 @@ TypeOK ==
 \* Dial hands back only a connection whose hello carried the id of the attempt it reached
 ReturnedPresentedFreshId ==
   /\ ret.kind = "rev" => (ret.c \in DOMAIN conns /\ conns[ret.c].kind = "legit" /\ Mode = "standard")
-  /\ ret.kind = "broker" => (Mode = "proxy" /\ att[ret.c].stage = "hello" /\ att[ret.c].st = "ok" /\ ~att[ret.c].viaBroker)
+  /\ ret.kind = "broker" => (Mode = "proxy" /\ att[ret.c].stage = "hello" /\ att[ret.c].hello = "legit" /\ ~att[ret.c].viaBroker)
 \* proxy mode: the broker connection is returned only after the success reply AND the matching hello
-\* (stage "hello" is entered only by reading replyOk; st "ok" only by reading a legit hello)
+\* (stage "hello" is entered only by reading replyOk; hello = the greeting that was accepted)
 
 AtMostOneReturned ==
   Cardinality({c \in DOMAIN conns : conns[c].st = "returned"})
